@@ -23,6 +23,8 @@ def run(ctx, rep):
     rt.rule_unsafe_inventory(rep, crate, 'logos-forbid', expect_empty=True)
     rt.rule_read_forbid(rep, crate, 'logos-forbid')
     rt.rule_accessor_operands(rep, crate, 'logos-forbid', True)
+    from props import gen
+    gen.rules_c05(ctx, rep)
     rep.analysed['configs'] = cfgs + ['logos-forbid']
     rep.trusted += ['rustc nightly MIR construction', 'engines/mirfacts', 'std: ptr::add, get_unchecked contracts']
     rep.assumptions += ['positions passed to LexerInternal::end by generated code are within the source (decided on generated code by G7c)']
